@@ -1,6 +1,6 @@
 ENTRY = {
     "level": "proof",
-    "families": [fam("C08", 120, 4000)],
+    "families": [fam("C08", 60, 4000)],
     "gen_items": [],
     "rule": "family C08: one statement per case over a generated catalog (2 tables, 4..300 rows, up to 14 batches, NULL density 0/10/50/100 %), run through ExecutionContext::sql "
             "WITHOUT a memory limit and under 2-3 limits of the ladder {8x, 1.25x, 1/3, 1/12 of the input bytes, 200 bytes} (no spill / about one run / several runs / more than 8 "
@@ -22,14 +22,14 @@ ENTRY = {
         "an explicit error under a limit is an allowed outcome (the property says so); a panic never is",
         "NaN / -0.0 keys are not generated; floats are dyadic",
     ],
-    "min_tags": {"kind:sort": 1, "kind:join": 1, "kind:agg": 1, "lim:same": 1, "stratum:sort_clean": 1, "stratum:sort_offset": 1, "stratum:join_inner": 1, "stratum:agg": 1},
+    "min_tags": {"regime:fits": 1, "regime:runs<=8": 1, "regime:multi_pass": 1, "kind:sort": 1, "kind:join": 1, "kind:agg": 1, "lim:same": 1, "stratum:sort_clean": 1, "stratum:sort_offset": 1, "stratum:join_inner": 1, "stratum:agg": 1},
     "manifest": {
         "category": "proof",
         "text": "Lean theorems: for ANY total preorder and ANY cut of the input into runs, the streaming k-way merge of the sorted runs (earliest run wins ties), and multi-pass merging "
                 "with any fan-in, is a sorted permutation of the input, agrees with the in-memory sort position by position up to ties, and take k of it is a top-k; the ORDER BY comparator with "
                 "per-key NULLS FIRST/LAST is such a preorder (C08_external_sort, C08_external_sort_comparator, C25_spilled); for ANY hash function, partition-wise inner join and partition-wise "
                 "GROUP BY concatenated equal the unpartitioned operators as bags (C08_grace_join, C08_spilled_agg); the spilled join returns that answer or an explicit error (C08_either). "
-                "The unchanged tree violates the property on the spilled sort path (findings C08-F1 fetch ignored, C08-F2 NULL placement in the merge, C08-F3 boolean keys compare equal, "
+                "The unchanged tree violates the property on the spilled sort path (C08-F1 fetch ignored — repaired by 6bbb4e5, witness replayed from the corpus; open findings C08-F2 NULL placement in the merge, C08-F3 boolean keys compare equal, "
                 "C08-F4 merge-buffer reuse for runs longer than 8192 rows, C08-F5 DATE/BOOLEAN join keys dropped, C08-F6 NULL group keys grouped differently by the aggregation path the limit selects): each has a kernel-checked model witness, a witness replayed on the real code on "
                 "every run, and exact-mirror or signature+neutraliser attribution; all other strata must pass.",
         "design_ref": "DESIGN.md §6 C08",
